@@ -34,3 +34,38 @@ def frame(ed, flag, nsub, descs, s4, s2=None, header=b"", pad_even=None, s3_extr
     out.append(i3(3 + len(b4)) + b4)
     body = b"".join(out) + b"7777"
     return bytes(header) + b"BUFR" + i3(8 + len(body)) + bytes([ed]) + body
+
+
+def parse(msg):
+    """an independent reading of a whole message, from the regulation: returns a dict or raises ValueError(reason).
+    Checks the total length, the section lengths (an even number of octets up to edition 3, the exact length in
+    edition 4), the reserved octets and the end marker."""
+    m = bytes(msg)
+    if m[:4] != b"BUFR": raise ValueError("no start marker")
+    if len(m) < 8: raise ValueError("short")
+    total = int.from_bytes(m[4:7], "big"); ed = m[7]
+    if total != len(m): raise ValueError("Section 0 announces %d octets, the message has %d" % (total, len(m)))
+    pos = 8
+    def sect(name, minlen):
+        nonlocal pos
+        if pos + 3 > len(m): raise ValueError("Section %s cut short" % name)
+        n = int.from_bytes(m[pos:pos + 3], "big")
+        if n < minlen or pos + n > len(m): raise ValueError("Section %s: length %d does not fit" % (name, n))
+        if ed <= 3 and n % 2: raise ValueError("Section %s has an odd number of octets (%d) in edition %d" % (name, n, ed))
+        b = m[pos:pos + n]; pos += n
+        return b
+    s1 = sect("1", 22 if ed >= 4 else 17)
+    has2 = bool(s1[9 if ed >= 4 else 7] & 0x80)
+    s2 = sect("2", 4) if has2 else None
+    s3 = sect("3", 7)
+    if s3[3] != 0: raise ValueError("Section 3 octet 4 (reserved) is not zero")
+    nsub = int.from_bytes(s3[4:6], "big"); flag = s3[6]
+    nd = (len(s3) - 7) // 2
+    descs = [((s3[7 + 2 * i] >> 6) * 100000) + ((s3[7 + 2 * i] & 63) * 1000) + s3[8 + 2 * i] for i in range(nd)]
+    rest3 = s3[7 + 2 * nd:]
+    if ed >= 4 and rest3: raise ValueError("Section 3 of edition 4 carries %d octet(s) behind its descriptors" % len(rest3))
+    if any(rest3): raise ValueError("Section 3 fill octet is not zero")
+    s4 = sect("4", 4)
+    if s4[3] != 0: raise ValueError("Section 4 octet 4 (reserved) is not zero")
+    if m[pos:pos + 4] != b"7777" or pos + 4 != len(m): raise ValueError("end marker 7777 not where Section 4 ends")
+    return {"edition": ed, "s1": s1, "s2": s2, "nsub": nsub, "flag": flag, "descs": descs, "s4": s4[4:]}
